@@ -104,6 +104,19 @@ func (e *miniEval) expr(x ast.Expr) int64 {
 			}
 			return e.fail("index out of the table row " + core.ExprStr(y))
 		}
+		// a lookup in a constant map (literal or package-level variable) with scalar values
+		if entries, ok := e.mapLit(y.X); ok {
+			want := e.expr(y.Index)
+			for _, kv := range entries {
+				if e.expr(kv.Key) == want {
+					if _, isCL := ast.Unparen(kv.Value).(*ast.CompositeLit); isCL {
+						return e.fail("index " + core.ExprStr(y))
+					}
+					return e.expr(kv.Value)
+				}
+			}
+			return 0
+		}
 		// an element of a constant array / slice held in a package-level variable
 		if id, isID := ast.Unparen(y.X).(*ast.Ident); isID {
 			if init := core.PkgVarInit(e.pk, id.Name); init != nil {
@@ -879,7 +892,14 @@ func (e *miniEval) tableRow(x ast.Expr) ([]ast.Expr, bool) {
 	want := e.expr(ix.Index)
 	for _, kv := range entries {
 		if e.expr(kv.Key) == want {
-			if cl, ok := ast.Unparen(kv.Value).(*ast.CompositeLit); ok {
+			val := ast.Unparen(kv.Value)
+			// a row shared through a package-level variable
+			if id, isID := val.(*ast.Ident); isID {
+				if init := core.PkgVarInit(e.pk, id.Name); init != nil {
+					val = ast.Unparen(init)
+				}
+			}
+			if cl, ok := val.(*ast.CompositeLit); ok {
 				return cl.Elts, true
 			}
 			return nil, false
